@@ -206,6 +206,7 @@ class Executor:
         s.ub = []          # (cond BoolRef, text)
         s.ubshift_mode = ubshift_mode; s.cur_ins = None; s.ubchoice = {}
         s.ubvals = []      # (fresh var, [candidate x86 results]) for out-of-range shifts
+        s.writes = []      # caller-memory stores in program order: (pc, rid, offset, nbytes, value bits)
         s.accesses = []    # (pc, addr BV64, nbytes, align, 'r'|'w', rid, off)
         s.side = []; _side = s.side
         s.steps = 0; s.max_steps = max_steps
@@ -855,6 +856,7 @@ class Executor:
             s.accesses.append((list(st.pc), addr, nb, align or 1, 'w', p.rid, p.off))
             if isinstance(ty, (ArrT, StructT, PtrT)): raise Unsupported('aggregate/pointer store to ext')
             b, n = s.to_bits(ty, v)
+            s.writes.append((list(st.pc), p.rid, p.off, nb, b))
             m = st.ext
             for k in range(nb):
                 m = z3.Store(m, addr + k if k else addr, bv(extract(8 * k + 7, 8 * k, b), 8))
@@ -979,7 +981,9 @@ class Executor:
                 if not is_c(v):
                     v2 = z3.simplify(v)
                     if z3.is_bv_value(v2): v = v2.as_long()
-                    else: raise Unsupported('symbolic switch')
+                    else:
+                        st = s.sym_switch(f, st, b, v2, term, frame)
+                        continue
                 tgt = term.extra['default']
                 for (cty, cop), l in term.extra['cases']:
                     if cop[1] == v: tgt = l; break
@@ -997,6 +1001,31 @@ class Executor:
                 st.dead = True; st.outcome = 'resume'
             else:
                 raise Unsupported('terminator ' + op)
+
+    def sym_switch(s, f, st, b, v, term, frame):
+        """symbolic switch: every feasible case is executed to the switch block's immediate post-dominator, then merged"""
+        n = v.size()
+        arms = []; seen = []
+        for (cty, cop), l in term.extra['cases']:
+            arms.append((v == z3.BitVecVal(cop[1], n), l)); seen.append(cop[1])
+        arms.append((z3.And(*[v != z3.BitVecVal(c, n) for c in seen]) if seen else z3.BoolVal(True), term.extra['default']))
+        join = s.ipd(f)[b.name]
+        done = []
+        for cond, label in arms:
+            s.forks += 1
+            t_ok, _ = s.feasible(st.pc, cond)
+            if not t_ok: continue
+            t = st.clone(); t.pc.append(cond)
+            s.goto(t, label)
+            t = s.exec_until(f, t, join, {'unwind': dict(frame['unwind'])})
+            if not t.dead: done.append((cond, t))
+        if not done:
+            st.dead = True; st.outcome = 'infeasible'; return st
+        r = done[-1][1]
+        for cond, t in reversed(done[:-1]):
+            r = s.merge(cond, t, r, st, f)
+        r.pc = list(st.pc)
+        return r
 
     def goto(s, st, label):
         st.prev = st.block; st.block = label; st.phis_done = False
@@ -1035,19 +1064,30 @@ class Executor:
             return r
         if bb.dead:
             return a
-        return s.merge(c, a, bb, st)
+        return s.merge(c, a, bb, st, f)
 
-    def merge(s, c, a, b, parent):
+    def regtypes(s, f):
+        rt = getattr(f, '_regtypes', None)
+        if rt is None:
+            rt = {name: ty for ty, name, _ in f.params}
+            for bl in f.blocks.values():
+                for ins in list(bl.phis) + list(bl.instrs):
+                    if ins.res is not None: rt[ins.res] = ins.ty
+            f._regtypes = rt
+        return rt
+
+    def merge(s, c, a, b, parent, f=None):
         r = a
+        rt = s.regtypes(f) if f is not None else {}
         # registers: only those that differ (phi results of the join block, or return value)
         for k, va in list(a.regs.items()):
             vb = b.regs.get(k)
             if vb is None or va is vb: continue
             if k in parent.regs and parent.regs[k] is va and parent.regs[k] is vb: continue
-            r.regs[k] = s.merge_val(c, va, vb)
+            r.regs[k] = s.merge_val(c, va, vb, rt.get(k))
         if a.block == 'EXIT':
             if a.ret is not None:
-                r.ret = s.merge_val(c, a.ret, b.ret)
+                r.ret = s.merge_val(c, a.ret, b.ret, f.ret if f is not None else None)
         # memory
         for rid in set(a.mem) | set(b.mem):
             ca = a.mem.get(rid); cb = b.mem.get(rid)
@@ -1081,19 +1121,23 @@ class Executor:
             r.outcome = ('ite', c, a.outcome, b.outcome)
         return r
 
-    def merge_val(s, c, a, b):
+    def merge_val(s, c, a, b, ty=None):
         if a is b: return a
         if isinstance(a, F):
             return s.select1(c, FloatT(a.n), a, b)
         if isinstance(a, Ptr): return s.merge_ptr(c, a, b)
-        if isinstance(a, list): return [s.merge_val(c, x, y) for x, y in zip(a, b)]
+        if isinstance(a, list):
+            if isinstance(ty, (VecT, ArrT)): return [s.merge_val(c, x, y, ty.el) for x, y in zip(a, b)]
+            if isinstance(ty, StructT): return [s.merge_val(c, x, y, t) for x, y, t in zip(a, b, ty.fields)]
+            return [s.merge_val(c, x, y) for x, y in zip(a, b)]
         if isinstance(a, (bool, z3.BoolRef)) or isinstance(b, (bool, z3.BoolRef)):
             if isinstance(a, bool) and isinstance(b, bool) and a == b: return a
             return z3.If(c, zbool(a), zbool(b))
         n = a.size() if not isinstance(a, int) else (b.size() if not isinstance(b, int) else None)
         if n is None:
             if a == b: return a
-            raise EncoderError('merge of two different concrete ints without width: need width')
+            if isinstance(ty, IntT): n = ty.n
+            else: raise EncoderError('merge of two different concrete ints without width: need width')
         return ite(c, a, b, n)
 
     # ------------------------------------------------------------ instructions
